@@ -12,6 +12,7 @@ CLASS_HOME = {
     'NewtonSolver': 'openmdao/solvers/nonlinear/newton.py',
     'NonlinearBlockGS': 'openmdao/solvers/nonlinear/nonlinear_block_gs.py',
     'Driver': 'openmdao/core/driver.py',
+    'OptionsDictionary': 'openmdao/utils/options_dictionary.py',
     'Autoscaler': 'openmdao/drivers/autoscalers/autoscaler.py',
     'OptimizerVector': 'openmdao/vectors/optimizer_vector.py',
     'LinesearchSolver': 'openmdao/solvers/linesearch/backtracking.py',
@@ -25,6 +26,7 @@ PROPERTY_MODULES = {
     'C09': ['contracts.c09_solvers'],
     'C20': ['contracts.c20_scaling'],
     'C22': ['contracts.c22_conviol'],
+    'C27': ['contracts.c27_options'],
 }
 
 # modules whose contracts may be used as callee contracts by any property
@@ -53,6 +55,7 @@ PROPERTY_ASSUMPTIONS = {
             'assumed: _iter_get_norm returns NaN or a value >= 0; _single_iteration and _run_apply neither raise nor modify solver control state'],
 }
 GAPS = {
+    'C27': ['types=list (element-wise values check)', 'set_function preprocessing', 'declare() default validation and argument checks', 'update()/undeclare()/set()', 'deprecation warning text'],
     'C22': ['Driver._compute_con_viol (linear-first concatenation, exception fallback)', 'OptimizerVector.update_from_model (assumed to deliver model values)', 'multi-constraint vectors: one constraint slice [a,b) of a larger vector is verified, other slices are covered by the frame only'],
     'C20': ['unit part of total_scaler/total_adder (System._setup_driver_units, add_design_var/add_response normalisation)', '_TotalJacInfo._apply_unit_scaling/_identify_unit_active_vars', 'Autoscaler._compute_scaled_bounds slice layout loop', 'OptimizerVector.update_from_model / create_from_model', 'Driver._get_voi_val / _set_design_var unit branches'],
     'C09': ['BroydenSolver._iter_initialize (array dtype conversions outside the subset)', 'ScipyKrylov / PETScKrylov delegate to external iterations', 'ArmijoGoldsteinLS / BoundsEnforceLS inner iteration counts', 'exceptions raised by subsystems inside _single_iteration'],
